@@ -25,3 +25,15 @@ Proof. exact lr_language. Qed.
 Print Assumptions C01_sound.
 Print Assumptions C01_complete.
 Print Assumptions C01_language.
+
+(* THE GENERATOR, for all grammars expressible in the DSL (analyze rg = Some g): whenever the mirror of state_analyzer
+   succeeds, marks no finished cell as a conflict and no state holds the accept/reduce clash of known finding D12,
+   the table it built passes the validator - hence, by the theorems above, the parser accepts exactly the language. *)
+Require Import Ctpg.Proofs.GenCorrect Ctpg.Proofs.GenAnalyze.
+Theorem C01_generator : forall rg g lim sts tbl,
+  analyze rg = Some g -> grammar_wf g = true ->
+  gen_with g lim = inl (sts, tbl) ->
+  conflict_free g (length sts) tbl = true -> accept_clean g sts = true ->
+  validate g (map st_all sts) tbl = true.
+Proof. exact gen_validates_analyze. Qed.
+Print Assumptions C01_generator.
